@@ -51,9 +51,10 @@ type routeOut struct {
 }
 
 type caseOut struct {
-	Plain routeOut `json:"plain"`
-	Local routeOut `json:"local"`
-	FS    routeOut `json:"fs"`
+	Marker string   `json:"marker"`
+	Plain  routeOut `json:"plain"`
+	Local  routeOut `json:"local"`
+	FS     routeOut `json:"fs"`
 }
 
 type recorder struct {
@@ -64,27 +65,109 @@ type recorder struct {
 
 // importDepth: number of module bodies in progress, read off the Go call stack (one importModule
 // activation per body being evaluated).  Independent of the VM's own bookkeeping.
+// The import depth of an event = number of module bodies in progress = number of activations, on the Go
+// call stack, of the function that evaluates a module body.  That function is not looked up by name: it is
+// discovered by calibration (see calibrate): the function whose activation count grows by exactly one per
+// nested import and not at all under try(func(){...}).
 var (
-	pcMemo   = map[uintptr]bool{}
-	pcBuffer = make([]uintptr, 1<<16)
+	markerEntry uintptr // entry pc of the marker function; 0 = depth unavailable
+	pcMemo      = map[uintptr]uintptr{}
+	pcBuffer    = make([]uintptr, 1<<16)
 )
 
+func stackEntries() []uintptr {
+	n := runtime.Callers(2, pcBuffer)
+	out := make([]uintptr, 0, n)
+	for _, pc := range pcBuffer[:n] {
+		e, ok := pcMemo[pc]
+		if !ok {
+			if f := runtime.FuncForPC(pc - 1); f != nil {
+				e = f.Entry()
+			}
+			pcMemo[pc] = e
+		}
+		out = append(out, e)
+	}
+	return out
+}
+
 func importDepth() int {
+	if calibrating != nil {
+		*calibrating = stackEntries()
+		return 0
+	}
+	if markerEntry == 0 {
+		return -1
+	}
 	n := runtime.Callers(2, pcBuffer)
 	d := 0
 	for _, pc := range pcBuffer[:n] {
-		is, ok := pcMemo[pc]
+		e, ok := pcMemo[pc]
 		if !ok {
 			if f := runtime.FuncForPC(pc - 1); f != nil {
-				is = strings.HasSuffix(f.Name(), "vm.(*VirtualMachine).importModule")
+				e = f.Entry()
 			}
-			pcMemo[pc] = is
+			pcMemo[pc] = e
 		}
-		if is {
+		if e == markerEntry {
 			d++
 		}
 	}
 	return d
+}
+
+var calibrating *[]uintptr
+
+func countOf(xs []uintptr) map[uintptr]int {
+	m := map[uintptr]int{}
+	for _, x := range xs {
+		m[x]++
+	}
+	return m
+}
+
+// calibrate runs four tiny programs and picks the marker function.
+func calibrate() string {
+	if os.Getenv("C14OBS_NODEPTH") != "" {
+		return "unavailable" // test knob: exercise the check's fallback path
+	}
+	dir, err := os.MkdirTemp("", "c14cal-")
+	if err != nil {
+		return "no temp dir"
+	}
+	defer os.RemoveAll(dir)
+	_ = os.WriteFile(filepath.Join(dir, "m1.risor"), []byte("tick(0, 0)\n"), 0o644)
+	_ = os.WriteFile(filepath.Join(dir, "m2.risor"), []byte("import m1\n"), 0o644)
+	run := func(src string) []uintptr {
+		var got []uintptr
+		calibrating = &got
+		defer func() { calibrating = nil }()
+		rec := newRecorder()
+		_, _ = risor.Eval(context.Background(), src, risor.WithGlobals(rec.builtins()), risor.WithLocalImporter(dir))
+		return got
+	}
+	s0 := countOf(run("tick(0, 0)"))
+	s1 := countOf(run("import m1"))
+	s2 := countOf(run("import m2"))
+	st := countOf(run("try(func() { tick(0, 0) })"))
+	var best uintptr
+	bestName := ""
+	for e := range s2 {
+		if s1[e]-s0[e] == 1 && s2[e]-s0[e] == 2 && st[e]-s0[e] == 0 {
+			name := ""
+			if f := runtime.FuncForPC(e); f != nil {
+				name = f.Name()
+			}
+			if best == 0 || name < bestName {
+				best, bestName = e, name
+			}
+		}
+	}
+	markerEntry = best
+	if best == 0 {
+		return "unavailable"
+	}
+	return bestName
 }
 
 func newRecorder() *recorder {
@@ -263,6 +346,7 @@ func main() {
 	sc := bufio.NewScanner(os.Stdin)
 	sc.Buffer(make([]byte, 1<<20), 1<<26)
 	enc := json.NewEncoder(w)
+	marker := calibrate()
 	for sc.Scan() {
 		var c caseIn
 		if err := json.Unmarshal(sc.Bytes(), &c); err != nil {
@@ -296,6 +380,7 @@ func main() {
 			b, _ := hex.DecodeString(mh)
 			src := strings.ReplaceAll(string(b), "@CASEDIR@", dir)
 			var out caseOut
+			out.Marker = marker
 			{
 				rec := newRecorder()
 				out.Plain = evalRoute(src, rec, risor.WithGlobals(rec.builtins()), risor.WithLocalImporter(rootArg))
